@@ -357,7 +357,7 @@ func (h *wpH) settleDestroys() {
 		if !w.destroyed.Equal(h.lastDes[n]) {
 			h.lastDes[n] = w.destroyed
 			h.cloudS.mtx.Lock()
-			inst := h.cloudS.insts[n]
+			inst := h.allInsts[n]
 			h.cloudS.mtx.Unlock()
 			if inst != nil {
 				exps = append(exps, exp{inst, h.desSeen[n]})
@@ -1156,11 +1156,14 @@ func wpScenario(t *testing.T, r *vRand, mode string) (string, []string, map[stri
 		case x < 92:
 			it := r.Intn(nit)
 			des := map[int]int{}
+			// every instance ever seen: a worker may outlive its instance's presence in the cloud listing
+			// (answer of a list request issued before the instance vanished)
+			insts := map[int]*wpInst{}
 			h.cloudS.mtx.Lock()
-			for n, inst := range h.cloudS.insts {
+			for n, inst := range h.allInsts {
+				insts[n] = inst
 				des[n] = inst.nDestroys()
 			}
-			insts := h.cloudS.insts
 			h.cloudS.mtx.Unlock()
 			ok := h.pool.Shutdown(h.its[it])
 			chosen := 0
@@ -1198,7 +1201,13 @@ func wpScenario(t *testing.T, r *vRand, mode string) (string, []string, map[stri
 		case x < 98:
 			// an instance disappears from the cloud (only one the pool has shut down, or rarely any)
 			h.cloudS.mtx.Lock()
-			for n, inst := range h.cloudS.insts {
+			var cns []int
+			for n := range h.cloudS.insts {
+				cns = append(cns, n)
+			}
+			sort.Ints(cns) // deterministic for a given seed
+			for _, n := range cns {
+				inst := h.cloudS.insts[n]
 				if inst.nDestroys() > 0 || r.Chance(1, 10) {
 					if h.pending[n] {
 						continue
